@@ -245,3 +245,27 @@ func TestReplay(t *testing.T) {
 		}
 	}
 }
+
+// runEnum drives an enumerated (non-random) check: every yielded case is executed;
+// the first failure is saved and fails the test.
+func runEnum(t *testing.T, id string, each func(yield func(*core.Case) bool)) {
+	each(func(c *core.Case) bool {
+		c.Prop = id
+		v := getChild().Run(c, caseTimeout())
+		record(c, v)
+		if v.Status == "crash" || v.Status == "hang" {
+			v.Detail = fmt.Sprintf("query: %s\n%s", c.Query, v.Detail)
+		}
+		if v.Bad() {
+			f := &failure{Case: c, Verdict: v}
+			saveFailure(f)
+			statMu.Lock()
+			stat.Failures = append(stat.Failures, *f)
+			statMu.Unlock()
+			fmt.Printf("FAILURE property=%s replay=%s\n%s\n", id, f.Replay, v.Detail)
+			t.Fail()
+			return len(stat.Failures) < 5
+		}
+		return true
+	})
+}
